@@ -1178,6 +1178,17 @@ class Interp:
         fr.locals['$yield'].append(None if e.value is None else self.eval(e.value, f))
         return None
 
+    def e_YieldFrom(self, e, f):
+        """`yield from it` in an eagerly collected generator: every item of `it` is yielded in order"""
+        fr = f
+        while '$yield' not in fr.locals:
+            fr = fr.closure
+            if fr is None:
+                raise Unsupported('yield from outside generator')
+        for item in self.iterate(self.eval(e.value, f)):
+            fr.locals['$yield'].append(item)
+        return None
+
     def instantiate(self, cls, args, kwargs):
         new, owner = cls.lookup('__new__')
         if new is not MISSING and not (isinstance(new, Builtin) and new.name == 'object.__new__'):
